@@ -309,9 +309,10 @@ class Report(object):
             print('[%s] %s' % (self.prop, n))
         for l in lines:
             print(l)
-        only_vacuity = herr and all(str(h.get('message', '')).startswith('vacuity:') for h in herr)
-        if new and only_vacuity:
-            # a violation usually explains why a witness was not reached: report the violation
+        if new:
+            # a replayed violation takes precedence over harness diagnostics (which it usually explains)
+            for h in herr[:3]:
+                print('HARNESS-NOTE property=%s %s' % (self.prop, str(h.get('message', ''))[-300:].replace('\n', ' ')))
             return 1
         if herr:
             for h in herr[:3]:
